@@ -66,7 +66,8 @@ func (s Script) String() string {
 
 type countAck struct {
 	Parts int32 `json:"parts"`
-	Ack   int   `json:"ack"` // op-log length when the response was received
+	Ack   int   `json:"ack"`            // op-log length when the response was received
+	Sent  int   `json:"sent,omitempty"` // op-log length when the request was sent
 }
 
 type topicHist struct {
@@ -81,12 +82,15 @@ type prodAck struct {
 	N     int    `json:"n"`
 	Kind  int    `json:"kind"`
 	Ack   int    `json:"ack"`
+	Sent  int    `json:"sent,omitempty"`
+	Txn   int    `json:"txn,omitempty"` // transactional produce: number (from 1) of its transaction within the history
 }
 
 type commitAck struct {
 	Offset int64  `json:"offset"`
 	Meta   string `json:"meta"`
 	Ack    int    `json:"ack"`
+	Sent   int    `json:"sent,omitempty"` // a transactional commit takes effect with its EndTxn: Sent/Ack are the EndTxn's
 	Txn    bool   `json:"txn,omitempty"`
 }
 
@@ -94,6 +98,8 @@ type endAck struct {
 	Prod   int  `json:"prod"`
 	Commit bool `json:"commit"`
 	Ack    int  `json:"ack"`
+	Sent   int  `json:"sent,omitempty"`
+	Txn    int  `json:"txn,omitempty"` // number of the transaction it ended
 }
 
 type probe struct {
@@ -115,6 +121,26 @@ type Model struct {
 	Probes     []probe                `json:"probes,omitempty"`
 	CloseStart int                    `json:"close_start"` // op-log length when Close was called
 	NOps       int                    `json:"nops"`
+
+	// Multi-session histories (sessions_test.go). Sessions > 0: the model is the
+	// union of Sessions sessions on one directory; Script holds the requests of the
+	// last of them, the op indexes refer to ITS log (acknowledgements of earlier
+	// sessions have index 0: required at every crash point), History describes all.
+	Sessions     int     `json:"sessions,omitempty"`
+	History      string  `json:"history,omitempty"`
+	CrashAborted []int64 `json:"crash_aborted,omitempty"` // producer ids that had a transaction in flight at a crash recovery of an earlier session
+}
+
+// never is the acknowledgement index of a request that was in flight when an
+// earlier session crashed: its effect may be visible, it is never required.
+const never = 1 << 30
+
+// describe names the workload in failure messages.
+func (m *Model) describe() string {
+	if m.History != "" {
+		return m.History
+	}
+	return m.Script.String()
 }
 
 func tpKey(topic string, part int32) string { return fmt.Sprintf("%s-%d", topic, part) }
@@ -165,160 +191,259 @@ type prodState struct {
 		key string
 		c   commitAck
 	}
-	last map[string][]byte // last acknowledged batch per "topic-part"
+	last  map[string][]byte // last acknowledged batch per "topic-part"
+	inTxn bool              // a transaction is open (multi-session bookkeeping)
+	txn   int               // number of the open transaction
 }
 
-// run executes the script on a fresh recording file system and returns the
-// model, the live snapshot taken right before the clean Close, and the log.
-func run(s Script) (*Model, *Snap, *crashfs.FS, error) {
-	fs := crashfs.New()
-	n, err := startNode(fs, s.Bcfg)
-	if err != nil {
-		return nil, nil, nil, fmt.Errorf("starting the workload cluster on an empty directory: %w", err)
+func (p *prodState) reset() {
+	p.pid, p.epoch, p.inited = -1, -1, false
+	p.seq, p.last = map[string]int32{}, map[string][]byte{}
+	p.staged, p.inTxn, p.txn = nil, false, 0
+}
+
+// runner executes the requests of one session against a live cluster and keeps
+// the model. A single-session workload (run) uses it once on an empty
+// directory; a multi-session history (sessions_test.go) calls session once per
+// restart with the model and the producers carried over.
+type runner struct {
+	name  string
+	bcfg  map[string]string
+	m     *Model
+	prods []*prodState
+	// multi-session only
+	multi   bool
+	sess    int              // index of the current session
+	exists  map[string]int32 // topic -> partition count the running cluster shows
+	txns    int              // transactions begun so far
+	skipped int              // steps skipped because an earlier crash took their target away
+}
+
+func newRunner(name string, kinds []int, bcfg map[string]string) *runner {
+	r := &runner{name: name, bcfg: bcfg, m: &Model{Topics: map[string]*topicHist{}, Commits: map[string][]commitAck{}, Ref: map[string][][]byte{}}}
+	for i, k := range kinds {
+		p := &prodState{kind: k, txid: fmt.Sprintf("tx-%d", i)}
+		p.reset()
+		r.prods = append(r.prods, p)
 	}
+	return r
+}
+
+func txidPtr(p *prodState) *string {
+	if p.kind == prodTxn {
+		return &p.txid
+	}
+	return nil
+}
+
+// tag makes the record values and commit metadata of every step distinct.
+func (r *runner) tag(si int) string {
+	if r.multi {
+		return fmt.Sprintf("%s/S%ds%d", r.name, r.sess, si)
+	}
+	return fmt.Sprintf("%s/s%d", r.name, si)
+}
+
+// rejected: in the first session on an empty directory every request of a
+// script is one the broker must accept, anything else is a harness problem. In
+// a later session the same request is refused by a cluster that was restarted
+// on the directory: the restart did not bring back a usable state.
+func (r *runner) rejected(si int, what string, code int16) error {
+	if r.sess == 0 {
+		return infraf("step %d %s: error code %d", si, what, code)
+	}
+	return violf("session %d (after a restart on the same directory) step %d: %s is refused with error code %d", r.sess, si, what, code)
+}
+
+func (r *runner) ensure(n *node, p *prodState) error {
+	if p.inited || p.kind == prodPlain {
+		return nil
+	}
+	pid, ep, code, err := n.initPID(txidPtr(p), -1, -1)
+	if err != nil {
+		return err
+	}
+	if code != 0 {
+		return r.rejected(-1, fmt.Sprintf("InitProducerID(%v)", p.txid), code)
+	}
+	p.pid, p.epoch, p.inited = pid, ep, true
+	return nil
+}
+
+// has reports whether the running cluster shows the partition (always true in a
+// single-session workload).
+func (r *runner) has(topic string, part int32) bool {
+	if !r.multi {
+		return true
+	}
+	return part < r.exists[topic] && r.m.Topics[topic] != nil
+}
+
+func (r *runner) step(n *node, fs *crashfs.FS, si int, st Step) error {
+	m := r.m
+	sent := fs.Len()
+	skip := func() error { r.skipped++; return nil }
+	switch st.Op {
+	case "topic":
+		if r.multi && (r.exists[st.Topic] > 0 || m.Topics[st.Topic] != nil) {
+			return skip()
+		}
+		id, code, err := n.createTopic(st.Topic, st.Parts)
+		if err != nil {
+			return err
+		}
+		if code != 0 {
+			return r.rejected(si, "CreateTopics "+st.Topic, code)
+		}
+		m.Topics[st.Topic] = &topicHist{ID: id, Counts: []countAck{{st.Parts, fs.Len(), sent}}}
+		if r.multi {
+			r.exists[st.Topic] = st.Parts
+		}
+	case "parts":
+		if r.multi && (!r.has(st.Topic, 0) || r.exists[st.Topic] >= st.Parts) {
+			return skip()
+		}
+		code, err := n.createPartitions(st.Topic, st.Parts)
+		if err != nil {
+			return err
+		}
+		if code != 0 {
+			return r.rejected(si, "CreatePartitions "+st.Topic, code)
+		}
+		th := m.Topics[st.Topic]
+		th.Counts = append(th.Counts, countAck{st.Parts, fs.Len(), sent})
+		if r.multi {
+			r.exists[st.Topic] = st.Parts
+		}
+	case "produce":
+		if !r.has(st.Topic, st.Part) {
+			return skip()
+		}
+		p := r.prods[st.Prod]
+		if err := r.ensure(n, p); err != nil {
+			return err
+		}
+		key := tpKey(st.Topic, st.Part)
+		seq := int32(-1)
+		if p.kind != prodPlain {
+			seq = p.seq[key]
+		}
+		if p.kind == prodTxn && !p.inTxn {
+			r.txns++
+			p.inTxn, p.txn = true, r.txns
+		}
+		batch := craftBatch(r.tag(si), st.N, p.pid, p.epoch, seq, p.kind == prodTxn, baseTimestamp+int64(1000*r.sess+si))
+		code, base, err := n.produce(st.Topic, m.Topics[st.Topic].ID, st.Part, txidPtr(p), batch)
+		if err != nil {
+			return err
+		}
+		if code != 0 {
+			return r.rejected(si, fmt.Sprintf("Produce %s kind %d (producer id %d epoch %d first sequence %d)", key, p.kind, p.pid, p.epoch, seq), code)
+		}
+		m.Produced = append(m.Produced, prodAck{st.Topic, st.Part, base, st.N, p.kind, fs.Len(), sent, p.txn})
+		if p.kind != prodPlain {
+			p.seq[key] = seq + int32(st.N)
+			p.last[key] = batch
+		}
+	case "commit":
+		if !r.has(st.Topic, st.Part) {
+			return skip()
+		}
+		meta := r.tag(si)
+		code, err := n.offsetCommit(st.Group, st.Topic, m.Topics[st.Topic].ID, st.Part, st.Offset, meta)
+		if err != nil {
+			return err
+		}
+		if code != 0 {
+			return r.rejected(si, "OffsetCommit", code)
+		}
+		k := commitKey(st.Group, st.Topic, st.Part)
+		m.Commits[k] = append(m.Commits[k], commitAck{Offset: st.Offset, Meta: meta, Ack: fs.Len(), Sent: sent})
+	case "txcommit":
+		if !r.has(st.Topic, st.Part) {
+			return skip()
+		}
+		p := r.prods[st.Prod]
+		if err := r.ensure(n, p); err != nil {
+			return err
+		}
+		if !p.inTxn {
+			r.txns++
+			p.inTxn, p.txn = true, r.txns
+		}
+		meta := r.tag(si)
+		code, err := n.txnOffsetCommit(p.txid, p.pid, p.epoch, st.Group, st.Topic, st.Part, st.Offset, meta)
+		if err != nil {
+			return err
+		}
+		if code != 0 {
+			return r.rejected(si, "TxnOffsetCommit", code)
+		}
+		p.staged = append(p.staged, struct {
+			key string
+			c   commitAck
+		}{commitKey(st.Group, st.Topic, st.Part), commitAck{Offset: st.Offset, Meta: meta, Txn: true}})
+	case "end":
+		p := r.prods[st.Prod]
+		if r.multi && !p.inTxn {
+			return skip()
+		}
+		code, ne, err := n.endTxn(p.txid, p.pid, p.epoch, st.Commit)
+		if err != nil {
+			return err
+		}
+		if code != 0 {
+			return r.rejected(si, fmt.Sprintf("EndTxn commit=%v (producer id %d epoch %d)", st.Commit, p.pid, p.epoch), code)
+		}
+		ack := fs.Len()
+		m.Ends = append(m.Ends, endAck{st.Prod, st.Commit, ack, sent, p.txn})
+		if st.Commit {
+			// the staged offsets take effect with the EndTxn response; if the same
+			// key was staged twice the last one wins
+			lastOf := map[string]int{}
+			for i, sc := range p.staged {
+				lastOf[sc.key] = i
+			}
+			for i, sc := range p.staged {
+				if lastOf[sc.key] == i {
+					sc.c.Ack, sc.c.Sent = ack, sent
+					m.Commits[sc.key] = append(m.Commits[sc.key], sc.c)
+				}
+			}
+		}
+		p.staged, p.inTxn, p.txn = nil, false, 0
+		if ne != p.epoch {
+			p.epoch = ne
+			p.seq = map[string]int32{}
+			p.last = map[string][]byte{}
+		}
+	default:
+		return infraf("unknown step %q", st.Op)
+	}
+	return nil
+}
+
+// session executes the steps on the running node, reads the cluster back, and
+// closes it cleanly. It returns the live snapshot taken right before the Close.
+func (r *runner) session(n *node, fs *crashfs.FS, steps []Step) (*Snap, error) {
+	m := r.m
 	stopped := false
 	defer func() {
 		if !stopped {
 			n.stop()
 		}
 	}()
-	m := &Model{Script: s, Topics: map[string]*topicHist{}, Commits: map[string][]commitAck{}, Ref: map[string][][]byte{}}
-	prods := make([]*prodState, len(s.Prods))
-	for i, k := range s.Prods {
-		prods[i] = &prodState{kind: k, txid: fmt.Sprintf("tx-%d", i), pid: -1, epoch: -1, seq: map[string]int32{}, last: map[string][]byte{}}
-	}
-	txidPtr := func(p *prodState) *string {
-		if p.kind == prodTxn {
-			return &p.txid
-		}
-		return nil
-	}
-	ensure := func(p *prodState) error {
-		if p.inited || p.kind == prodPlain {
-			return nil
-		}
-		pid, ep, code, err := n.initPID(txidPtr(p), -1, -1)
-		if err != nil {
-			return err
-		}
-		if code != 0 {
-			return infraf("InitProducerID: error code %d", code)
-		}
-		p.pid, p.epoch, p.inited = pid, ep, true
-		return nil
-	}
-	for si, st := range s.Steps {
+	for si, st := range steps {
 		fs.Mark(fmt.Sprintf("step %d %s", si, st.Op))
-		switch st.Op {
-		case "topic":
-			id, code, err := n.createTopic(st.Topic, st.Parts)
-			if err != nil {
-				return nil, nil, nil, err
-			}
-			if code != 0 {
-				return nil, nil, nil, infraf("step %d CreateTopics %s: error code %d", si, st.Topic, code)
-			}
-			m.Topics[st.Topic] = &topicHist{ID: id, Counts: []countAck{{st.Parts, fs.Len()}}}
-		case "parts":
-			code, err := n.createPartitions(st.Topic, st.Parts)
-			if err != nil {
-				return nil, nil, nil, err
-			}
-			if code != 0 {
-				return nil, nil, nil, infraf("step %d CreatePartitions %s: error code %d", si, st.Topic, code)
-			}
-			th := m.Topics[st.Topic]
-			th.Counts = append(th.Counts, countAck{st.Parts, fs.Len()})
-		case "produce":
-			p := prods[st.Prod]
-			if err := ensure(p); err != nil {
-				return nil, nil, nil, err
-			}
-			key := tpKey(st.Topic, st.Part)
-			seq := int32(-1)
-			if p.kind != prodPlain {
-				seq = p.seq[key]
-			}
-			batch := craftBatch(fmt.Sprintf("%s/s%d", s.Name, si), st.N, p.pid, p.epoch, seq, p.kind == prodTxn, baseTimestamp+int64(si))
-			code, base, err := n.produce(st.Topic, m.Topics[st.Topic].ID, st.Part, txidPtr(p), batch)
-			if err != nil {
-				return nil, nil, nil, err
-			}
-			if code != 0 {
-				return nil, nil, nil, infraf("step %d Produce %s kind %d: error code %d", si, key, p.kind, code)
-			}
-			m.Produced = append(m.Produced, prodAck{st.Topic, st.Part, base, st.N, p.kind, fs.Len()})
-			if p.kind != prodPlain {
-				p.seq[key] = seq + int32(st.N)
-				p.last[key] = batch
-			}
-		case "commit":
-			meta := fmt.Sprintf("%s/s%d", s.Name, si)
-			code, err := n.offsetCommit(st.Group, st.Topic, m.Topics[st.Topic].ID, st.Part, st.Offset, meta)
-			if err != nil {
-				return nil, nil, nil, err
-			}
-			if code != 0 {
-				return nil, nil, nil, infraf("step %d OffsetCommit: error code %d", si, code)
-			}
-			k := commitKey(st.Group, st.Topic, st.Part)
-			m.Commits[k] = append(m.Commits[k], commitAck{Offset: st.Offset, Meta: meta, Ack: fs.Len()})
-		case "txcommit":
-			p := prods[st.Prod]
-			if err := ensure(p); err != nil {
-				return nil, nil, nil, err
-			}
-			meta := fmt.Sprintf("%s/s%d", s.Name, si)
-			code, err := n.txnOffsetCommit(p.txid, p.pid, p.epoch, st.Group, st.Topic, st.Part, st.Offset, meta)
-			if err != nil {
-				return nil, nil, nil, err
-			}
-			if code != 0 {
-				return nil, nil, nil, infraf("step %d TxnOffsetCommit: error code %d", si, code)
-			}
-			p.staged = append(p.staged, struct {
-				key string
-				c   commitAck
-			}{commitKey(st.Group, st.Topic, st.Part), commitAck{Offset: st.Offset, Meta: meta, Txn: true}})
-		case "end":
-			p := prods[st.Prod]
-			code, ne, err := n.endTxn(p.txid, p.pid, p.epoch, st.Commit)
-			if err != nil {
-				return nil, nil, nil, err
-			}
-			if code != 0 {
-				return nil, nil, nil, infraf("step %d EndTxn commit=%v: error code %d", si, st.Commit, code)
-			}
-			ack := fs.Len()
-			m.Ends = append(m.Ends, endAck{st.Prod, st.Commit, ack})
-			if st.Commit {
-				// the staged offsets take effect with the EndTxn response; if the same
-				// key was staged twice the last one wins
-				lastOf := map[string]int{}
-				for i, sc := range p.staged {
-					lastOf[sc.key] = i
-				}
-				for i, sc := range p.staged {
-					if lastOf[sc.key] == i {
-						sc.c.Ack = ack
-						m.Commits[sc.key] = append(m.Commits[sc.key], sc.c)
-					}
-				}
-			}
-			p.staged = nil
-			if ne != p.epoch {
-				p.epoch = ne
-				p.seq = map[string]int32{}
-				p.last = map[string][]byte{}
-			}
-		default:
-			return nil, nil, nil, infraf("unknown step %q", st.Op)
+		if err := r.step(n, fs, si, st); err != nil {
+			return nil, err
 		}
 	}
 	fs.Mark("readback")
 	// Probes for non-transactional idempotent producers: both leave the broker
 	// state untouched whatever the answer is.
-	for _, p := range prods {
+	m.Probes = nil
+	for _, p := range r.prods {
 		if p.kind != prodIdem {
 			continue
 		}
@@ -339,24 +464,43 @@ func run(s Script) (*Model, *Snap, *crashfs.FS, error) {
 				Gap: craftBatch("gap", 1, p.pid, p.epoch, p.seq[k]+1000, false, baseTimestamp)})
 		}
 	}
-	before := fs.Len()
 	snap, err := snapshot(n, m, true)
 	if err != nil {
 		if isInfra(err) {
-			return nil, nil, nil, err
+			return nil, err
 		}
-		return nil, nil, nil, infraf("reading the live workload cluster back: %v", err)
+		if r.sess > 0 {
+			return nil, violf("session %d (after a restart on the same directory): the live cluster cannot be read back: %v", r.sess, err)
+		}
+		return nil, infraf("reading the live workload cluster back: %v", err)
 	}
+	m.Ref = map[string][][]byte{}
 	for k, ps := range snap.Parts {
 		m.Ref[k] = ps.Batches
 	}
 	// (a groups.log compaction requested by an earlier commit runs after the next
 	// request the broker handles, so the readback itself may add ops: fine)
-	_ = before
 	fs.Mark("close")
 	m.CloseStart = fs.Len()
 	stopped = true
 	n.stop()
 	m.NOps = fs.Len()
-	return m, snap, fs, nil
+	return snap, nil
+}
+
+// run executes the script on a fresh recording file system and returns the
+// model, the live snapshot taken right before the clean Close, and the log.
+func run(s Script) (*Model, *Snap, *crashfs.FS, error) {
+	fs := crashfs.New()
+	n, err := startNode(fs, s.Bcfg)
+	if err != nil {
+		return nil, nil, nil, fmt.Errorf("starting the workload cluster on an empty directory: %w", err)
+	}
+	r := newRunner(s.Name, s.Prods, s.Bcfg)
+	r.m.Script = s
+	snap, err := r.session(n, fs, s.Steps)
+	if err != nil {
+		return nil, nil, nil, err
+	}
+	return r.m, snap, fs, nil
 }
